@@ -333,8 +333,9 @@ for _t_ in TASKS:
 
 FALLBACK = Bounded(
     "battery_through_encode_and_send_msg", "c02", {}, {},
-    "16 messages (ASCII / accented / Cyrillic / cp1252-special text at top level, inside a repeating group, in CompIDs and "
-    "in the message type; session and application types; retransmissions; a 300 character value) through the real "
+    "19 messages (ASCII / accented / Cyrillic / cp1252-special text at top level, inside a repeating group, in CompIDs and "
+    "in the message type; session and application types; retransmissions; values of 300, 700, 5000 and 70000 "
+    "characters - byte sums beyond 16 bits, a frame larger than 64 KiB, an 8-digit sequence number) through the real "
     "encoder (ASCII ones) and the real send_msg, every frame checked by an independent framing parser",
     only_when_undecided=True)
 
